@@ -239,7 +239,6 @@ func runB(raw json.RawMessage) *core.Violation {
 			exp = append(exp, "!newsession/"+agentID+"/"+wsx.AgentKeyB64(0x10000001))
 		}
 		if v := op.Expect("operator (setup)", exp, "setup"); v != nil {
-			dirty = true
 			return v
 		}
 	}
@@ -292,7 +291,6 @@ func runB(raw json.RawMessage) *core.Violation {
 	if success {
 		wsx.Obs("svc-outcome:accepted")
 		if rd == mustReject {
-			dirty = true
 			return core.V("service|accepted|"+clsKey(c.Cls), "the service endpoint answered Success to a first message that does not present the password (%s)", c.Cls)
 		}
 		// positive control: now (and only now) a registration is dispatched
@@ -304,7 +302,6 @@ func runB(raw json.RawMessage) *core.Violation {
 			for !(seen["service/1"] && seen["service/2"]) {
 				fr, ok, _ := op.Next(wsx.Watchdog)
 				if !ok {
-					dirty = true
 					return core.V("service|registration-not-announced", "after a correct password the agent/listener registrations were not announced to the operator (saw %v)", seen)
 				}
 				if pk, err := wsx.Decode(fr); err == nil {
@@ -351,19 +348,16 @@ func runB(raw json.RawMessage) *core.Violation {
 			Body struct{ Success *bool }
 		}
 		if i > 0 || json.Unmarshal(fr.Data, &r) != nil || r.Head.Type != "Register" || r.Body.Success == nil || *r.Body.Success {
-			dirty = true
 			return core.V("service|frame-to-unauthenticated|"+followKindsS(c.Follow), "the unauthenticated service socket received message %d: %.300q (first message %s, follow-ups %v)", i+1, fr.Data, c.Cls, c.Follow)
 		}
 	}
 	s1 := fx.Snapshot()
 	if what, d := s0.Diff(s1); what != "" {
-		dirty = true
 		return core.V("service|state-changed|"+what+"|"+followKindsS(c.Follow), "before the service password was presented (%s) follow-ups %v changed the teamserver's %s: %s", c.Cls, c.Follow, what, d)
 	}
 	if op != nil {
 		if extra := op.Pending(); len(extra) > 0 {
 			ps, _ := projAll(extra)
-			dirty = true
 			return core.V("service|event-emitted|"+followKindsS(c.Follow), "the operator received %v caused by an unauthenticated service socket (%s, follow-ups %v)", clip(ps), c.Cls, c.Follow)
 		}
 	}
